@@ -253,9 +253,7 @@ class WebSocketWriter:
         """Close the websocket, sending the specified code and message."""
         if isinstance(message, str):
             message = message.encode("utf-8")
-        try:
-            await self.send_frame(
-                PACK_CLOSE_CODE(code) + message, opcode=WSMsgType.CLOSE
-            )
-        finally:
-            self._closing = True
+        # Set before the send: it may wait for the transport to drain, and no data
+        # frame written by another task meanwhile may follow the close frame.
+        self._closing = True
+        await self.send_frame(PACK_CLOSE_CODE(code) + message, opcode=WSMsgType.CLOSE)
